@@ -283,6 +283,18 @@ def gen_medium(rng, tier, ops_fn, prefix="md", acc=False, basins=False):
     return out
 
 
+def gen_zigzag_oracle_only(rng, basins=False):
+    """one oracle-only profile of 140001 nodes whose every second node is a pit: more than 65536
+    outlets / basins / breadth-first entries per level (labels and counters narrowed to 16 bits)"""
+    n = 140001
+    g = gen.Grid("profile", size=n, dx=1.0, borders=["v", "c"], cache=True, ov=[])
+    z = [float(i % 2) for i in range(n)]
+    lines = [g.line(), "graph single", "update " + gen.hexes(z)]
+    if basins:
+        lines.append("basins")
+    return [("ob_zigzag", lines)]
+
+
 def gen_big_oracle_only(rng, tier, kind):
     """thorough tier only: rasters of 16x16 to 40x40 nodes (many basins, hubs of large degree, long
     flow paths) judged by the independent oracle alone - the model driver is not run on them"""
@@ -342,6 +354,7 @@ def gen_single(rng, tier):
         out.append(("s%d" % k, _flow_scn(rng, g, ops, n_updates=rng.randint(1, 2))))
     out += gen_small_scope(rng, tier, lambda r: r.choice([["single"], ["single:%d" % r.choice([2, 3])], ["pflood", "single"]]), "xs", n_quick=80, n_thorough=3000)
     out += gen_medium(rng, tier, lambda r: r.choice([["single"], ["pflood", "single"]]), "mds")
+    out += gen_zigzag_oracle_only(rng)
     return out
 
 
@@ -396,6 +409,8 @@ def gen_any_ops(rng, tier, acc=False, basins=False):
     out += gen_small_scope(rng, tier, lambda r: gen.resolver_ops(r) if r.random() < 0.6 else r.choice([["single"], ["multi:" + hx(1.0)]]),
                            "xa", acc=acc, basins=basins, n_quick=80, n_thorough=3000)
     out += gen_medium(rng, tier, lambda r: gen.resolver_ops(r) if r.random() < 0.6 else r.choice([["single"], ["multi:" + hx(1.0)]]), "mda", acc=acc, basins=basins)
+    if not acc:
+        out += gen_zigzag_oracle_only(rng, basins=basins)
     return out
 
 
